@@ -30,6 +30,7 @@ mod node;
 mod out;
 mod rng;
 mod suite_classify;
+mod suite_e2e;
 mod suite_fee;
 mod suite_height;
 mod suite_provider;
@@ -68,6 +69,7 @@ fn main() {
         "provider" => suite_provider::run(ctx),
         "height" => suite_height::run(ctx),
         "wire" => suite_wire::run(ctx),
+        "e2e" => suite_e2e::run(ctx),
         other => { eprintln!("unknown suite {}", other); std::process::exit(2); }
     }
 }
